@@ -17,6 +17,10 @@ pub struct C15;
 fn leaf_node(i: usize, dup: bool) -> Node {
     let j = if dup { i / 2 } else { i };
     // distinct small tapscripts; every script stays tiny
+    if j % 7 == 6 {
+        // full (02/03) keys of both parities: script order is by the x-only form
+        return Node::SortedMultiA(1, vec![keys::key_compressed(j % 12), keys::key_compressed((j + 3) % 12), keys::key_compressed((j + 7) % 12)]);
+    }
     match j % 3 {
         0 => Node::AndV(b(Node::Verify(b(Node::Check(b(Node::PkK(keys::key_xonly(j % 12))))))), b(Node::Older((j + 1) as u32))),
         1 => Node::AndV(b(Node::Verify(b(Node::Check(b(Node::PkK(keys::key_xonly((j + 5) % 12))))))), b(Node::After((j + 1) as u32))),
@@ -160,6 +164,34 @@ fn check_self(tr: &Tr<DK>, how: &str) -> Result<(), Failure> {
     let mut q = [0u8; 32];
     q.copy_from_slice(&sb[2..]);
     let a: Vec<(usize, Vec<u8>)> = tr.leaves().map(|l| (l.depth() as usize, l.compute_script().into_bytes())).collect();
+    // the leaf iterator from the back, and from both ends alternately
+    {
+        let mut back: Vec<(usize, Vec<u8>)> = tr.leaves().rev().map(|l| (l.depth() as usize, l.compute_script().into_bytes())).collect();
+        back.reverse();
+        if back != a {
+            return fail(&format!("self-leaves-reversed/{}", how), "Tr::leaves().rev() is not the reverse of Tr::leaves()".to_string());
+        }
+        let mut it = tr.leaves();
+        let (mut front, mut tail) = (Vec::new(), Vec::new());
+        loop {
+            match it.next() {
+                Some(l) => front.push((l.depth() as usize, l.compute_script().into_bytes())),
+                None => break,
+            }
+            match it.next_back() {
+                Some(l) => tail.push((l.depth() as usize, l.compute_script().into_bytes())),
+                None => break,
+            }
+        }
+        tail.reverse();
+        front.extend(tail);
+        if front != a {
+            return fail(&format!("self-leaves-two-ended/{}", how), "alternating next() / next_back() on Tr::leaves() does not visit every leaf once in order".to_string());
+        }
+        if tr.leaves().len() != a.len() {
+            return fail(&format!("self-leaves-len/{}", how), format!("Tr::leaves().len() = {} but it yields {} leaves", tr.leaves().len(), a.len()));
+        }
+    }
     let si = tr.spend_info();
     let b2: Vec<(usize, Vec<u8>)> = si.leaves().map(|l| (usize::from(l.depth()), l.script().as_bytes().to_vec())).collect();
     if a != b2 {
